@@ -5,7 +5,7 @@
  *   case K elem align maxmem maxcache nthreads fail=<i,j|-> offs=<o1,o2,..>
  *   seq T a<n>|r<k>          operation of thread T run to completion by the main thread (sequential prologue)
  *   prog T op op ...         program of worker T for the concurrent phase
- *   run none | rng SEED | dfs MAX | replay t0 t1 .. | fine rng SEED | fine replay t0 .. | stress ROUNDS SEED
+ *   run none | rng SEED | dfs MAX | replay t0 t1 .. | fine rng SEED | fine replay t0 .. | stress ROUNDS SEED | race ITERS SEED
  *   pool K n asked ; pa T ; pf ID ; pend ; pstress n iters seed
  * The case is executed when its `run` line arrives (once per schedule for dfs); each execution prints the
  * complete transcript `op => result` (the `case` op gets ` hdr=<sizeof(parsec_arena_chunk_t)>` appended).
@@ -24,9 +24,9 @@
 #include "parsec/arena.h"
 #include "parsec/data_internal.h"
 #include "parsec/mempool.h"
+#include <pthread.h>
 #include "pv.h"
 #include "ctl_sched.h"
-#include <pthread.h>
 
 #define MAXT 16
 #define MAXOPS 64
@@ -43,10 +43,21 @@ static __thread long t_last_freed = -1;
 static __thread long t_last_malloc_size = -1;
 static volatile int g_viol;
 
+/* oracle failures are buffered and printed at line boundaries of the transcript */
+static char vbuf[64][512]; static int nvbuf; static pthread_mutex_t vmu = PTHREAD_MUTEX_INITIALIZER;
 static void viol(const char *fmt, long a, long b, long c)
 {
-    char buf[512]; snprintf(buf, sizeof buf, fmt, a, b, c);
-    printf("!viol C27 %s\n", buf); __sync_fetch_and_add(&g_viol, 1);
+    pthread_mutex_lock(&vmu);
+    if( nvbuf < 64 ) snprintf(vbuf[nvbuf++], 512, fmt, a, b, c);
+    pthread_mutex_unlock(&vmu);
+    __sync_fetch_and_add(&g_viol, 1);
+}
+static void flush_viol(void)
+{
+    pthread_mutex_lock(&vmu);
+    for(int i = 0; i < nvbuf; i++) printf("!viol C27 %s\n", vbuf[i]);
+    nvbuf = 0;
+    pthread_mutex_unlock(&vmu);
 }
 
 static void *my_malloc(size_t size)
@@ -217,6 +228,7 @@ static void observe(void *o, int step, int t)
     printf("%s %d => %s ", fine_mode ? "fstep" : "step", t, name);
     print_shared();
     if( nres[t] > seen[t] ) { printf(" res=%s\n", results[t][seen[t]]); seen[t]++; } else printf(" res=-\n");
+    flush_viol();
 }
 
 static void arena_teardown(void)
@@ -256,11 +268,10 @@ static void execute(ctl_choose_t ch, void *cctx)
             printf("ok maxused=%d maxrel=%d\n", (int)arena.max_used, (int)arena.max_released);
         } else if( nt == 3 && !strcmp(tok[0], "seq") ) {
             long t; op_t o;
-            printf("%s => ", script[li]);
-            if( !ok || !parse_nat(tok[1], &t) || t >= c_n || !parse_op(tok[2], &o) || has_prog[t] ) { printf("bad-op\n"); continue; }
+            if( !ok || !parse_nat(tok[1], &t) || t >= c_n || !parse_op(tok[2], &o) || has_prog[t] ) { printf("%s => bad-op\n", script[li]); continue; }
             char out[160];
             if( o.isrel ) do_release((int)t, o.arg, out, sizeof out); else do_alloc((int)t, o.arg, out, sizeof out);
-            printf("%s ", out); print_shared(); printf("\n");
+            printf("%s => %s ", script[li], out); print_shared(); printf("\n"); flush_viol();
         } else if( nt >= 2 && !strcmp(tok[0], "prog") ) {
             long t; int good = ok && parse_nat(tok[1], &t) && t < c_n && nt - 2 <= MAXOPS;
             printf("%s => ", script[li]);
@@ -283,15 +294,41 @@ static void execute(ctl_choose_t ch, void *cctx)
         for(int t = 0; t < c_n; t++) { printf("%s[", t ? " " : ""); for(int i = nheld[t] - 1; i >= 0; i--) printf("%ld%s", held[t][i].id, i ? " " : ""); printf("]"); }
         printf("] mallocs=%ld\n", (long)g_mallocs);
     }
+    flush_viol();
     arena_teardown();
+    flush_viol();
 }
 
 /* ------------------------------------------------------------------ free-running stress (search, not the tie) */
 static pthread_barrier_t bar; static int s_rounds, s_n; static uint64_t s_seed;
 static volatile long s_maxcache, s_fail_allocs, s_ok_allocs, s_cached, s_freed;
+static int s_race;
+static void quiescent_check(void)
+{
+    int len = cache_len();
+    if( len > s_maxcache ) s_maxcache = len;
+    if( arena.max_released != INT32_MAX && arena.released != len ) viol("quiescent state: released = %ld but %ld chunks cached", (long)arena.released, len, 0);
+    if( arena.max_used != INT32_MAX && arena.max_used != 0 ) {
+        long el = g_outstanding + len;
+        if( arena.used != el ) viol("quiescent state: used = %ld but %ld elements exist (held + cached)", (long)arena.used, el, 0);
+    }
+}
 static void *stress_worker(void *p)
 {
     int t = (int)(intptr_t)p; pv_rng_t r = { s_seed * 7919 + (uint64_t)t * 104729 + 1 }; char out[160];
+    if( s_race ) {      /* no barriers: maximal overlap of allocations and releases */
+        pthread_barrier_wait(&bar);
+        for(int i = 0; i < s_rounds; i++) {
+            if( nheld[t] < 6 && pv_below(&r, 2) ) {
+                do_alloc(t, pv_below(&r, 6) ? 1 : pv_range(&r, 2, 3), out, sizeof out);
+                if( out[0] == 'o' ) __sync_fetch_and_add(&s_ok_allocs, 1); else __sync_fetch_and_add(&s_fail_allocs, 1);
+            } else if( nheld[t] > 0 ) {
+                do_release(t, (long)pv_below(&r, (uint64_t)nheld[t]), out, sizeof out);
+                if( out[0] == 'c' ) __sync_fetch_and_add(&s_cached, 1); else __sync_fetch_and_add(&s_freed, 1);
+            }
+        }
+        return NULL;
+    }
     for(int round = 0; round < s_rounds; round++) {
         int na = (int)pv_range(&r, 1, 6);
         for(int i = 0; i < na; i++) {
@@ -307,21 +344,14 @@ static void *stress_worker(void *p)
             if( out[0] == 'c' ) __sync_fetch_and_add(&s_cached, 1); else __sync_fetch_and_add(&s_freed, 1);
         }
         int w = pthread_barrier_wait(&bar);
-        if( w == PTHREAD_BARRIER_SERIAL_THREAD ) {     /* quiescent: nobody inside the arena */
-            int len = cache_len();
-            if( len > s_maxcache ) s_maxcache = len;
-            if( arena.max_released != INT32_MAX && arena.released != len ) viol("quiescent state: released = %ld but %ld chunks cached", (long)arena.released, len, 0);
-            if( arena.max_used != INT32_MAX && arena.max_used != 0 ) {
-                long el = g_outstanding + len;
-                if( arena.used != el ) viol("quiescent state: used = %ld but %ld elements exist (held + cached)", (long)arena.used, el, 0);
-            }
-        }
+        if( w == PTHREAD_BARRIER_SERIAL_THREAD ) quiescent_check();     /* quiescent: nobody inside the arena */
         pthread_barrier_wait(&bar);
     }
     return NULL;
 }
-static void stress(const char *runline, int rounds, uint64_t seed)
+static void stress(const char *runline, int rounds, uint64_t seed, int race)
 {
+    s_race = race;
     /* the buffered script holds only the case line */
     execute(NULL, NULL);     /* prints the case transcript (sequential part), tears down */
     /* rebuild the arena for the free-running part */
@@ -339,6 +369,7 @@ static void stress(const char *runline, int rounds, uint64_t seed)
     for(int i = 0; i < n; i++) pthread_create(&th[i], NULL, stress_worker, (void*)(intptr_t)i);
     for(int i = 0; i < n; i++) pthread_join(th[i], NULL);
     pthread_barrier_destroy(&bar);
+    if( race ) quiescent_check();
     printf("#stress %s maxrel=%d threads=%ld maxcache=%ld live_max=%ld ok=%ld refused=%ld cached=%ld freed=%ld\n", runline, (int)arena.max_released, n,
            (long)s_maxcache, (long)g_live_max, (long)s_ok_allocs, (long)s_fail_allocs, (long)s_cached, (long)s_freed);
     if( arena.max_released != INT32_MAX ) {
@@ -348,6 +379,7 @@ static void stress(const char *runline, int rounds, uint64_t seed)
     pv_stat("stress_rounds", rounds); pv_stat("stress_allocs", s_ok_allocs); pv_stat("stress_refused", s_fail_allocs);
     pv_stat("stress_overshoot_runs", (arena.max_released != INT32_MAX && s_maxcache > arena.max_released) ? 1 : 0);
     arena_teardown();
+    flush_viol();
 }
 
 /* ------------------------------------------------------------------ thread memory pools */
@@ -496,14 +528,16 @@ int main(void)
                 int sc[4096], len = 0; for(int k = i + 1; k < nt && len < 4096; k++) sc[len++] = atoi(tok[k]);
                 ctl_replay_t rp = { sc, len }; execute(ctl_choose_replay, &rp);
             }
-            else if( !strcmp(tok[i], "stress") && i + 2 < nt ) stress(line, atoi(tok[i + 1]), strtoull(tok[i + 2], NULL, 10));
+            else if( !strcmp(tok[i], "stress") && i + 2 < nt ) stress(line, atoi(tok[i + 1]), strtoull(tok[i + 2], NULL, 10), 0);
+            else if( !strcmp(tok[i], "race") && i + 2 < nt ) stress(line, atoi(tok[i + 1]), strtoull(tok[i + 2], NULL, 10), 1);
             else printf("#bad run line\n");
             fflush(stdout);
             continue;
         }
-        if( !strcmp(tok[0], "pstress") ) { pstress(line, tok, nt); continue; }
-        pool_line(line, tok, nt);
+        if( !strcmp(tok[0], "pstress") ) { pstress(line, tok, nt); flush_viol(); continue; }
+        pool_line(line, tok, nt); flush_viol();
     }
     pool_teardown();
-    return g_viol ? 0 : 0;
+    flush_viol();
+    return 0;
 }
